@@ -23,7 +23,9 @@ prop('C03', 'translation_validation',
      'complete (every absent equation/variable pair has an identically-zero derivative); constant triplets equal the '
      'declared diag_eps; a sat is replayed on the real generated function against central finite differences.',
      'floats abstracted as reals; transcendental functions uninterpreted + lemma instances; 12 Fortescue entries '
-     '(sqrt/atan2 of trigonometric sums) stay unknown and are reported as such; kvxopt internals outside.',
+     '(sqrt/atan2 of trigonometric sums) stay unknown and are reported as such; assembled level: real fg_update/j_update of small Systems '
+     'at a symbolic operating point, gy entry-wise equal to the derivative of the assembled residual, stale buffers and islanded '
+     'rows, both ipadd modes (kvxopt replaced by a dictionary stub in exploration).',
      'SMT translation validation (z3 QF_UFNRA) of generated Jacobians vs symbolic derivatives', 'DESIGN.md 3/C03')
 prop('C09', 'other',
      'Bounded symbolic execution (pysym) of the real check_var/check_eq of every discrete class on symbolic inputs, limits, '
@@ -73,6 +75,16 @@ prop('C08', 'other',
      'kvxopt replaced by a dense stub in exploration (replays use kvxopt/KLU); LAPACK eigen-solver outside; floats as reals; '
      'gy and the zero-T block non-singular.',
      'path-forking symbolic execution of real matrix code + z3 nonlinear real arithmetic', 'DESIGN.md 3/C08')
+
+prop('C01', 'other',
+     'Real PFlow.fg_update of real small Systems (built through the public API with own MVA/kV bases, off-nominal tap, phase '
+     'shift, asymmetric branch shunts, parallel branches, several loads per bus, offline devices) executed at a fully symbolic '
+     'point -- voltages, angles, every input-base parameter, base ratios, statuses: z3 decides that each bus row of the assembled '
+     'residual equals the textbook polar complex-power balance written independently from the input data and that PV/slack rows '
+     'are the set-point equations, also with reversed device order and string indices.',
+     'per-unit ratios are the textbook ones (C11 proves that of calc_pu_coeff), service values are the declared v_str (C02); '
+     'Newton convergence from a flat start and the Newton-Krylov variant are outside; <= 3 buses / 4 branches.',
+     'symbolic execution of the real residual assembly + z3 identity with an independent physics oracle', 'DESIGN.md 3/C01')
 
 ORDER = ['C%02d' % i for i in range(1, 21)]
 checks, na = [], []
